@@ -316,6 +316,7 @@ pub fn gen_op_grammar(t: &mut Tape, name: &str) -> (G, Vec<OpLevel>) {
     let mut pre_pool: Vec<&str> = vec!["!", "~", "@"];
     let mut post_pool: Vec<&str> = vec!["?", "++", "'"];
     let mut levels = vec![];
+    let base: i32 = *t.pick(&[1i32, 0, -1, -2, 0, 1]);
     for l in 0..n_levels {
         let assoc = if t.pct(55) { "left" } else { "right" };
         let mut binary = vec![];
@@ -332,7 +333,8 @@ pub fn gen_op_grammar(t: &mut Tape, name: &str) -> (G, Vec<OpLevel>) {
         if t.pct(20) && !post_pool.is_empty() {
             postfix.push(post_pool.remove(t.below(post_pool.len())).to_string());
         }
-        levels.push(OpLevel { prec: (l as i32 + 1) * 10, assoc, binary, prefix, postfix });
+        // precedence values include 0 (what a bare prec.left(rule) carries) and negative numbers
+        levels.push(OpLevel { prec: (l as i32 + base) * 10, assoc, binary, prefix, postfix });
     }
     let e = || R::Sym("expr".into());
     let mut alts = vec![R::Sym("atom".into()), R::Sym("paren".into())];
